@@ -66,6 +66,19 @@ def gen_cases(rng, tier):
             ops.append(["q_bin", rng.choice(OPS), f"{_qty.tok(rng, x)}@{u}", f"{_qty.tok(rng, y)}@{v}", MODE])
             if rng.random() < .1:
                 ops.append(["ueq", u, v])
+        # quantities produced by allocation (adjusted in place by the
+        # dispersal) compare across units as their amounts say
+        qunits = [u for u in ctx.linear_units() if ctx.quantum(u) is not None]
+        for _ in range(8 if qunits else 0):
+            u = rng.choice(qunits)
+            same = [x for x in ctx.linear_units(ctx.units[u]["cls"]) if x != u]
+            if not same:
+                continue
+            n = rng.randint(2, 7)
+            x = rng.randint(1, 500) * ctx.quantum(u)
+            ratios = ",".join("n:%d/1" % rng.choice([1, 1, 1, 2, 3]) for _ in range(n))
+            ops.append(["q_alloc_cmp", f"{rat(x)}@{u}", ratios, rng.choice(same),
+                        rng.choice(["ROUND_HALF_EVEN", "ROUND_FLOOR", "ROUND_CEILING", "ROUND_HALF_UP"])])
         # units compare by their scale: every alias pair (distinct units of
         # one scale) and a sample of other pairs, all six operators
         by_cls = {}
@@ -118,6 +131,9 @@ def oracle(case, impl):
             exp = "ok " + ("true" if ctx.units[o[1]]["scale"] == ctx.units[o[2]]["scale"] else "false")
             if out != exp:
                 fails.append({"site": "cmp:units", "msg": f"{o} -> {out}"})
+        elif o[0] == "q_alloc_cmp":
+            if out != "ok true":
+                fails.append({"site": "cmp:allocated-portion", "msg": f"{o} -> {out}"})
     return fails
 
 
